@@ -21,6 +21,12 @@ add('C16',
     'Trusts Python\'s with-statement semantics and threading.local; does not decide run-time interleavings (isolation follows from the thread-local clause) nor user code that enters contexts by hand.',
     'DESIGN.md section 4, C16')
 
+add('C20',
+    'field-flow extraction on ConversionOptions (constructor/tuple/eq/hash/to_ast/call_options), template model of the embedded constructor call, static evaluation of the constant string operations that render the feature list, truth-table equivalence of uses(), CFG path counting in FunctionScope.__init__',
+    'The option space is finite (1024 values); the check decides the structural facts that imply the statement for all of them: value tuple = constructor parameters, eq over every field of both operands, hash over a subset, no mutation after __init__, frozenset normalisation of None/single/iterable, one embedded keyword per parameter fed from the same field, feature list rendering for 0..3 elements parses back to ag__.Feature members, ag__ exports, STD shortcut guarded by all fields, call_options field flow, uses() formula, FunctionScope/function-scope option wiring.',
+    'Trusts str(bool) / str(Enum member) spelling of CPython and that ag__ attribute lookup follows get_extra_locals; nothing is executed.',
+    'DESIGN.md section 4, C20')
+
 NOT_APPLICABLE = {
     'C12': 'quantifies over run-time tracebacks, generated line layout and source-map contents, which exist only after the pipeline has run on a program; the only shape-level clause (exception re-creation table) is too small a part to claim the property through (DESIGN.md section 5)',
 }
